@@ -59,7 +59,7 @@ CLAIMED = {
              "the set of positions modulo the new lattice equals that modulo the old lattice (infinite crystal unchanged); 1x1x1 is the "
              "identity; every bond, angle, dihedral and improper is copied into every image with its type (C12_terms_copied_per_image: tuples "
              "shifted by image number x N, types repeated, coefficient tables unchanged; C12_terms_within_one_image: every replicated tuple lies wholly "
-             "inside one image, reduces modulo N to an original tuple, and each kind has exactly a*b*c times as many terms; C12_counts: a*b*c*N atoms). Extra term columns per image and the purity of "
+             "inside one image, reduces modulo N to an original tuple, and each kind has exactly a*b*c times as many terms; C12_counts: a*b*c*N atoms; C12_atom_by_atom: atom q*N+v is original atom v translated by the q-th multiplier, same type id, charge, group, and same resolved element, mass, label, pair coefficients). Extra term columns per image and the purity of "
              "the original object rest on the correspondence and on the property evaluated directly on the implementation's output.",
         design_ref="DESIGN.md section 5, C12",
         technique="Coq proof (fold over multiplier triples; integer lattice arithmetic by ring/div-mod) with model/implementation correspondence on grid coordinates",
